@@ -278,6 +278,24 @@ Definition c03_grow (c : loop_case) : bool :=
   | [] => true
   end.
 
+(* C05 / C01 in the closed loop: a discovered target that some shard holds is held by some shard after every step -
+   cycles with any faults, scrape rounds, ticks, restarts (Proofs/WorldNoGap.v history_no_gap, evaluated here on what
+   the REAL sidecars reported after every step) *)
+Fixpoint gap_walk (active : list N) (prev : lobs) (steps : list lstep) (seen : list lobs) : bool :=
+  match steps, seen with
+  | st :: steps', cur :: seen' =>
+    let active' := match st with LSetActive hs => hs | _ => active end in
+    forallb (fun h => negb (existsb (N.eqb h) (all_hashes prev)) || existsb (N.eqb h) (all_hashes cur)) active' &&
+    gap_walk active' cur steps' seen'
+  | _, _ => true
+  end.
+Definition c05_loop_case (c : loop_case) : bool :=
+  no_panic c &&
+  match lc_seen c with
+  | ob0 :: seen => gap_walk (lc_active c) ob0 (lc_steps c) seen
+  | [] => true
+  end.
+
 (* C03: histories without faults; C06: histories with faults in their prefix *)
 Definition c03_case (c : loop_case) : bool := no_panic c && c03_grow c && (faulty_history c || c03_end c).
 Definition c06_case (c : loop_case) : bool := no_panic c && (negb (faulty_history c) || c03_end c).
